@@ -3,7 +3,78 @@
    codec/msgpack.go by harness/cmd/wiremsgpack + Wire/MsgpackCorr.v. *)
 From Coq Require Import List NArith ZArith Lia Bool.
 From Verif Require Import Base.Outcome Wire.Item Gen.Consts Wire.Msgpack Wire.MsgpackProofs Wire.MsgpackRT.
+From Verif Require Import C10.MsgpackSpec C10.MsgpackProofs.
 Import ListNotations.
+
+(* ---------------- C10, MessagePack half ---------------- *)
+
+(* out: for every item in the encoder's range and every option vector, the bytes the encoder
+   writes are one of the serialisations the specification permits ([ser], C10/MsgpackSpec.v:
+   exactly one well-formed item, nothing after it) for the spec value carrying the same data
+   ([sval_of]: same integer, float bits, string / binary bytes, array and map structure,
+   extension type and data, timestamp). *)
+Theorem C10_msgpack_out : forall O i, supported i -> ser (sval_of O i) (enc O i).
+Proof. exact c10_out. Qed.
+Print Assumptions C10_msgpack_out.
+
+(* in: every serialisation the specification permits (any width for an integer or a length,
+   fixstr/str8/16/32, bin8/16/32, fixext/ext8/16/32, the three timestamp formats, any head for
+   arrays and maps), of every spec value the library supports, followed by anything, is decoded
+   by DecodeNaked into an item carrying the data the specification assigns ([agrees]) and
+   exactly the serialisation is consumed.  Guard: [lib_supports] excludes Go-unhashable map
+   keys, application use of extension type -1, and SignedInteger with an unsigned value
+   >= 2^63 (known finding F07-1n, see C10_msgpack_in_signed_refuted). *)
+Theorem C10_msgpack_in : forall D s w rest,
+  ser s w -> lib_supports D s -> (Z.of_nat (sdepth s) < maxdepth D)%Z ->
+  goslice (len (w ++ rest)) ->
+  exists it, dec_naked D (dec_fuel (w ++ rest)) (w ++ rest) = Ok (it, rest) /\ agrees D it s.
+Proof. exact c10_in. Qed.
+Print Assumptions C10_msgpack_in.
+
+(* the statement without the SignedInteger guard: false of the faithful model *)
+Definition C10_msgpack_in_full_statement : Prop :=
+  forall D s w,
+  ser s w -> (Z.of_nat (sdepth s) < maxdepth D)%Z ->
+  (forall it, dec_naked D (dec_fuel w) w = Ok (it, []) -> agrees D it s).
+
+Theorem C10_msgpack_in_signed_refuted :
+  exists D s w, ser s w /\ (Z.of_nat (sdepth s) < maxdepth D)%Z /\
+    forall it, dec_naked D (dec_fuel w) w = Ok (it, []) -> ~ agrees D it s.
+Proof. exact c10_in_signed_refuted. Qed.
+Print Assumptions C10_msgpack_in_signed_refuted.
+
+(* non-vacuity: the executable spec decoder reads an encoder output as the same data; a
+   non-minimal serialisation (int 64 holding 5, str 32 holding "a", array 32, timestamp 96) is
+   permitted by [ser] and decoded by the library model *)
+Example C10_msgpack_out_nonvacuous :
+  let O := mkeopts true false false false in
+  let i := IMap [(IStr [107]%N, IArr [IInt (-33); IUint 300; IF32 1069547520; IBytes [1;2]%N; INil]);
+                 (IInt 7, ITime 1700000000 5); (IBool true, IExt 5 [9;9;9]%N)] in
+  supported i /\ sdec 100 (enc O i) = Some (sval_of O i, []).
+Proof. cbv zeta. split; [vm_compute; repeat apply conj; auto; try (intro; discriminate); reflexivity|vm_compute; reflexivity]. Qed.
+
+Example C10_msgpack_in_nonvacuous :
+  let D := mkdopts true false false 0 in
+  let s := SArr [SInt 5; SStr [97]%N; STime 1 2] in
+  let w := [0xdd; 0; 0; 0; 3;  0xd3; 0; 0; 0; 0; 0; 0; 0; 5;  0xdb; 0; 0; 0; 1; 97;
+            0xc7; 12; 0xff; 0; 0; 0; 2; 0; 0; 0; 0; 0; 0; 0; 1]%N in
+  ser s w /\ lib_supports D s /\
+  dec_naked D (dec_fuel w) w = Ok (IArr [IInt 5; IStr [97]%N; ITime 1 2], []).
+Proof.
+  cbv zeta. repeat apply conj.
+  - cbn [ser]. exists [0xdd; 0; 0; 0; 3]%N,
+      [[0xd3; 0; 0; 0; 0; 0; 0; 0; 5]; [0xdb; 0; 0; 0; 1; 97]; [0xc7; 12; 0xff; 0; 0; 0; 2; 0; 0; 0; 0; 0; 0; 0; 1]]%N.
+    repeat apply conj; try reflexivity.
+    + unfold arr_head. right; right. split; reflexivity.
+    + unfold ser_int. do 9 right. split; [lia|reflexivity].
+    + unfold ser_str. do 3 right. split; reflexivity.
+    + unfold ser_time. right; right. repeat apply conj; try reflexivity; lia.
+  - cbn. intros [H _]. discriminate.
+  - exact I.
+  - exact I.
+  - exact I.
+  - vm_compute. reflexivity.
+Qed.
 
 (* ---------------- wire layer ---------------- *)
 
